@@ -8,6 +8,7 @@ import CookModel.Lemmas.SimBlankLines
 import CookModel.Lemmas.RecipeSimStatic
 import CookModel.Lemmas.RecipeSimBlank
 import CookModel.Lemmas.TrailInst
+import CookModel.Lemmas.AuditC17
 /-
   C17  Line endings, comments and blank space do not change the recipe.
 
@@ -966,5 +967,178 @@ example : CleanEndLF [⟨.word, ['a', 'b'], 0⟩] := by
   simp only [List.getLast?_singleton, Option.some.injEq] at hl
   subst hl
   decide
+
+-- ===== w4audit17 =====
+/-! ## Audit wave (notes/audit-C17.md): filler inside names / quantities / metadata at text level,
+    the two exclusions are necessary, the comparison of the property is an equivalence and the
+    edits compose -/
+
+/-- **Block comment (with its blank) behind a blank inside ANY run read through `text_trimmed`.**
+    Component names, aliases, units, notes, text values of quantities, `>>` keys and section names
+    are all assembled by `BlockParser::text` from a token run and read through `text_trimmed()`.
+    For such a run `xs w ys` (`w` a non-empty whitespace token of blanks) and any filler `F` of
+    comment tokens and whitespace tokens of blanks (`A17Filler`; e.g. `[- c -]` + blank — the
+    transformation "block comment between two words"): the run `xs w F ys` has the same
+    `text_trimmed()`.  `C17_comment_between_words` alone gives only equal `text()` when the comment
+    is inserted WITHOUT its blank; with the blank `text()` gains a blank and it is the collapsing of
+    `text_trimmed` that makes `@olive [- c -] oil{}` the ingredient `olive oil`.  Offsets are free.
+    MISSING for the recipe-level clause: that the component parsers delimit the same run
+    (`xs w F ys` instead of `xs w ys`) — covered by the metamorphic runs (`transform5`). -/
+theorem C17_filler_after_blank_trimmed (cs : CharSpec) (hsp : cs.uws ' ' = true) (off off' : Nat)
+    (xs F ys : List Tok) (w : Tok) (hw : w.kind = .ws) (hwt : w.text ≠ []) (hwb : ∀ c ∈ w.text, c = ' ')
+    (hF : ∀ t ∈ F, A17Filler t) :
+    (buildText off' (xs ++ [w] ++ F ++ ys)).trimmed cs = (buildText off (xs ++ [w] ++ ys)).trimmed cs :=
+  a17_buildText_filler_after_blank cs hsp off off' xs F ys w hw hwt hwb hF
+
+/-- **Trailing comment / blanks on a line that ends inside such a run** (a name, unit or note
+    wrapped over a line break: `@sea -- c⏎salt{}`): `xs F nl ys` against `xs nl ys`, the same
+    `text_trimmed()` (the line break reads as one blank, the blanks of `F` collapse into it). -/
+theorem C17_filler_before_newline_trimmed (cs : CharSpec) (hsp : cs.uws ' ' = true) (off off' : Nat)
+    (xs F ys : List Tok) (nl : Tok) (hn : nl.kind = .newline) (hne : nl.text ≠ []) (hF : ∀ t ∈ F, A17Filler t) :
+    (buildText off' (xs ++ F ++ [nl] ++ ys)).trimmed cs = (buildText off (xs ++ [nl] ++ ys)).trimmed cs :=
+  a17_buildText_filler_before_newline cs hsp off off' xs F ys nl hn hne hF
+
+/-- **Trailing comment / blanks at the end of such a run** (`>> key: value -- c`, `= name -- c`):
+    `xs F` against `xs`, the same `text_trimmed()`; generalises `C17_trailing_space_trimmed` from one
+    whitespace token to any filler (blank + line comment). -/
+theorem C17_filler_at_end_trimmed (cs : CharSpec) (hsp : cs.uws ' ' = true) (off off' : Nat)
+    (xs F : List Tok) (hF : ∀ t ∈ F, A17Filler t) :
+    (buildText off' (xs ++ F)).trimmed cs = (buildText off xs).trimmed cs :=
+  a17_buildText_filler_at_end cs hsp off off' xs F hF
+
+/-- **The backslash exclusion of the CRLF clause is necessary, already for the number of steps.**
+    Source `a\⏎⏎b` (toy character table; the real lexer agrees, see the harness family
+    `witness:backslash-crlf`): the backslash escapes the line feed, the blank line is not seen and
+    the block splitter cuts ONE block; after CRLF conversion the backslash escapes the carriage
+    return, the line feed ends the line and there are TWO blocks.  On the real code: one step
+    `"a\n b"` against two steps `"a\r"`, `"b"`. -/
+theorem C17_crlf_backslash_exclusion_needed :
+    (blocksOf (lex toyCharSpec ['a', '\\', '\n', '\n', 'b'])).length = 1 ∧
+    (blocksOf (lex toyCharSpec (crlf ['a', '\\', '\n', '\n', 'b']))).length = 2 := a17_bs_blocks
+
+/-- **The precise law of define mode `text`** (MODES extension, `[mode]: text`).  A component
+    event that meets an open text buffer appends exactly the source bytes `input[span]` of the
+    component to the paragraph; nothing of the event is read.  Consequences for C17: inside such a
+    component the spelling of a line end (`\r\n` / `\n`), added blanks AND COMMENTS show up in the
+    recipe: `>> [mode]: text⏎⏎Add @sea [- c -] salt{} now` gives the paragraph
+    `Add @sea [- c -] salt{} now`, while outside the component the comment is removed
+    (`Add some [- c -] salt` gives `Add some  salt`).  The CRLF difference is white space (allowed
+    by the property); the comment is not — reported as a finding in notes/audit-C17.md. -/
+theorem C17_text_mode_copies_source {α : Type} [Arith α] (env : Env) (input : Str) (ev : Ev α)
+    (hev : ev.isComp = true) (c : Col α) (buf sl : Str) (hb : c.block = some (.text buf)) (hm : c.defineMode = .text)
+    (hsl : sliceBytes input ev.a17Span.start ev.a17Span.stop = some sl) :
+    (processEvent env input ev c).2.block = some (.text (buf ++ sl)) :=
+  a17_text_mode_copies_source env input ev hev c buf sl hb hm hsl
+
+/-- the law on a source with a comment inside the component: the comment is in the paragraph -/
+example : (processEvent a17EnvModes "~a [-c-] b{}".toList
+      (.timer ⟨⟨none, none⟩, ⟨0, 12⟩⟩ : Ev Rat) a17TextState).2.block = some (.text "~a [-c-] b{}".toList) :=
+  C17_text_mode_copies_source a17EnvModes _ _ rfl a17TextState [] "~a [-c-] b{}".toList rfl rfl
+    (by simp [sliceBytes, sliceBytes.go, Ev.a17Span]; decide)
+
+/-- **The text-mode exclusion of the strict theorems is necessary** (`C17_analysis_event_step`,
+    `C17_analysis_respects_evsim`, `C17_crlf_recipe_partial`): the source `~a⏎b{}` and its CRLF
+    conversion, the two timer events the parser reports for them (`EvSim`-related), one collector
+    state inside a text-mode block (`ColSim`-related to itself, `TextModeSliceAt` holds): the two
+    results hold `~a\r\nb{}` and `~a\nb{}` and are NOT `ColSim`-related. -/
+theorem C17_text_mode_exclusion_needed :
+    "~a\r\nb{}".toList = crlf "~a\nb{}".toList ∧
+    EvSim toyCharSpec.uws a17TimerCRLF a17TimerLF ∧ ColSim toyCharSpec.uws a17TextState a17TextState ∧
+    TextModeSliceAt a17TimerLF a17TextState ∧
+    (processEvent a17EnvModes "~a\r\nb{}".toList a17TimerCRLF a17TextState).2.block = some (.text "~a\r\nb{}".toList) ∧
+    (processEvent a17EnvModes "~a\nb{}".toList a17TimerLF a17TextState).2.block = some (.text "~a\nb{}".toList) ∧
+    ¬ ColSim toyCharSpec.uws (processEvent a17EnvModes "~a\r\nb{}".toList a17TimerCRLF a17TextState).2
+        (processEvent a17EnvModes "~a\nb{}".toList a17TimerLF a17TextState).2 := a17_text_mode_exclusion_needed
+
+/-- **The comparison the property states is an equivalence relation.**  `SameRecipe ws r' r`
+    (Lemmas/AuditC17.lean): a recipe on both sides or on neither; sections one to one with equal
+    names and as many contents, paragraphs equal, steps with equal numbers and items equal up to white
+    space in their text runs (`trailLoose`: the oracle's normal form; component items with the same
+    indices); ingredient, cookware, timer, inline-quantity tables and `>>` metadata map EQUAL (so
+    names, values, units, modifiers, notes, relations are equal); front matter on both sides or on
+    neither with the YAML text equal up to `\r\n`/`\n`; reports with the same severities, stages and
+    kinds in the same order.  It is reflexive, symmetric and transitive (`ResSim`/`ColSim` are not:
+    they are one-directional about CRLF front matter and not reflexive on arbitrary states). -/
+theorem C17_same_recipe_equivalence {α : Type} [Arith α] (ws : Char → Bool) :
+    (∀ r : AnalysisResult α, SameRecipe ws r r) ∧
+    (∀ a b : AnalysisResult α, SameRecipe ws a b → SameRecipe ws b a) ∧
+    (∀ a b c : AnalysisResult α, SameRecipe ws a b → SameRecipe ws b c → SameRecipe ws a c) :=
+  ⟨SameRecipe.a17_refl ws, fun _ _ h => h.a17_symm, fun _ _ _ h1 h2 => h1.a17_trans h2⟩
+
+/-- … and it implies the same validity (`PassResult::is_valid`: an output and no error-severity
+    diagnostic) and as many diagnostics -/
+theorem C17_same_recipe_validity {α : Type} [Arith α] (ws : Char → Bool) (a b : AnalysisResult α) (h : SameRecipe ws a b) :
+    a.output.isSome = b.output.isSome ∧
+    a.diags.toList.any (fun d => d.sev == .error) = b.diags.toList.any (fun d => d.sev == .error) ∧
+    a.diags.size = b.diags.size := h.a17_valid
+
+/-- every strict result (`ResSim`: CRLF conversion, extra blank / comment-only lines) implies it -/
+theorem C17_strict_implies_same_recipe {α : Type} [Arith α] (uws ws : Char → Bool) (r' r : AnalysisResult α)
+    (h : ResSim uws r' r) : SameRecipe ws r' r := a17_resSim_same ws h
+
+/-- … and so does the insertion theorem for well-formed documents
+    (`C17_insertion_recipe_wellformed_partial`: trailing comment, trailing blanks, block comment
+    between words of step text) -/
+theorem C17_insertion_same_recipe {α : Type} [Arith α] (env : Env) (ws : Char → Bool)
+    (pre' pre : List Tok) (doc' doc : List (DocItem × List Tok))
+    (h' : DocWF α env pre' doc') (h : DocWF α env pre doc)
+    (hins : LRel (ItemIns ws) (doc'.map (·.1)) (doc.map (·.1))) :
+    SameRecipe ws (parseRecipe (α := α) env (render (pre' ++ docSpec doc')))
+      (parseRecipe (α := α) env (render (pre ++ docSpec doc))) := a17_insertion_same env ws pre' pre doc' doc h' h hins
+
+/-- **Any finite sequence of the edits preserves the recipe.**  Sources `s 0, s 1, …, s n`, each
+    obtained from the previous one by an edit that preserves the recipe in the sense of the property
+    (CRLF conversion, a trailing comment, trailing blanks, a block comment between words, an extra
+    blank or comment-only line — in any order, at any places): `parse (s n)` and `parse (s 0)` are
+    the same recipe in that sense, with the same validity. -/
+theorem C17_edits_compose {α : Type} [Arith α] (ws : Char → Bool) (env : Env) (s : Nat → Str) (n : Nat)
+    (h : ∀ i, i < n → SameRecipe ws (parseRecipe (α := α) env (s (i + 1))) (parseRecipe (α := α) env (s i))) :
+    SameRecipe ws (parseRecipe (α := α) env (s n)) (parseRecipe (α := α) env (s 0)) := a17_edits_compose ws env s n h
+
+/-- CRLF conversion in the vocabulary of the property (every backslash-free input, MODES off) -/
+theorem C17_crlf_same_recipe_modes_off {α : Type} [Arith α] (ws : Char → Bool) (env : Env) (hcs : CrlfSpec env.cs)
+    (hu : UwsNL env.cs) (hm : env.ext.has Gen.EXT_MODES = false) (s : List Char) (hs : CrlfSafe s) :
+    SameRecipe ws (parseRecipe (α := α) env (crlf s)) (parseRecipe (α := α) env s) :=
+  a17_resSim_same ws (C17_crlf_recipe_modes_off (α := α) env hcs hu hm s hs)
+
+/-- **Two edits composed**: an extra blank / comment-only line AND CRLF conversion of the result
+    (setting of `C17_extra_blank_line_source_recipe_modes_off`, backslash-free source): the same
+    recipe as the original LF source without the line. -/
+theorem C17_crlf_after_extra_blank_line_modes_off {α : Type} [Arith α] (ws : Char → Bool) (env : Env)
+    (hcs : CrlfSpec env.cs) (hu : UwsNL env.cs) (hm : env.ext.has Gen.EXT_MODES = false)
+    (u e0 e x : List Char) (L : List (List Tok)) (hlu : lex env.cs u = L.flatten) (hL : ∀ l ∈ L, IsLine l)
+    (hE0 : EmptyLine (lexFrom env.cs (utf8Len u) e0)) (hE : EmptyLine (lexFrom env.cs (utf8Len u + utf8Len e0) e))
+    (h1 : parseFrontmatter env.cs (u ++ (e0 ++ (e ++ x))) = none) (h2 : parseFrontmatter env.cs (u ++ (e0 ++ x)) = none)
+    (hs : CrlfSafe (u ++ (e0 ++ (e ++ x)))) :
+    SameRecipe ws (parseRecipe (α := α) env (crlf (u ++ (e0 ++ (e ++ x))))) (parseRecipe (α := α) env (u ++ (e0 ++ x))) :=
+  (C17_crlf_same_recipe_modes_off ws env hcs hu hm _ hs).a17_trans
+    (a17_resSim_same ws (C17_extra_blank_line_source_recipe_modes_off (α := α) env hu hm u e0 e x L hlu hL hE0 hE h1 h2))
+
+/-! non-vacuity: filler tokens (`[- c -]` + blank; blank + `-- c`), the runs `olive␣oil` /
+    `olive␣[- c -]␣oil`, and two `SameRecipe`-related results that differ -/
+example : ∀ t ∈ [(⟨.blockComment, "[- c -]".toList, 7⟩ : Tok), ⟨.ws, [' '], 14⟩], A17Filler t := by
+  intro t ht
+  simp only [List.mem_cons, List.not_mem_nil, or_false] at ht
+  rcases ht with rfl | rfl
+  · exact Or.inl (Or.inl rfl)
+  · exact Or.inr ⟨rfl, by decide⟩
+example : (buildText 1 ([⟨.word, "olive".toList, 1⟩] ++ [⟨.ws, [' '], 6⟩] ++
+      [⟨.blockComment, "[- c -]".toList, 7⟩, ⟨.ws, [' '], 14⟩] ++ [⟨.word, "oil".toList, 15⟩])).trimmed toyCharSpec
+    = "olive oil".toList := by decide
+example : (buildText 1 ([⟨.word, "olive".toList, 1⟩] ++ [⟨.ws, [' '], 6⟩] ++ [⟨.word, "oil".toList, 7⟩])).trimmed toyCharSpec
+    = "olive oil".toList := by decide
+/-- without the collapsing of `text_trimmed` the two runs differ: `text()` has two blanks -/
+example : (buildText 1 ([⟨.word, "olive".toList, 1⟩] ++ [⟨.ws, [' '], 6⟩] ++
+      [⟨.blockComment, "[- c -]".toList, 7⟩, ⟨.ws, [' '], 14⟩] ++ [⟨.word, "oil".toList, 15⟩])).text
+    = "olive  oil".toList := by decide
+example : SameRecipe (α := Rat) (fun c => c = ' ')
+    (parseEvents C17_toyEnv [] [.warning ⟨.warning, .parse, "k", [⟨1, 2⟩]⟩])
+    (parseEvents C17_toyEnv ['x'] [.warning ⟨.warning, .parse, "k", [⟨5, 9⟩]⟩]) :=
+  C17_strict_implies_same_recipe C17_toyEnv.cs.uws _ _ _
+    (C17_analysis_respects_evsim C17_toyEnv [] ['x'] _ _
+      (.cons (EvSim.mk_warning ⟨rfl, rfl, rfl, rfl⟩) .nil) (by
+        simp only [TextModeFree]
+        exact ⟨fun h => (by cases h.1), trivial⟩))
+-- ===== end w4audit17 =====
 
 end Cook
